@@ -22,16 +22,22 @@ import (
 	"bytes"
 	"context"
 	"database/sql"
-	"errors"
 
 	"github.com/lightningnetwork/lnd/sqldb"
 	"github.com/lightningnetwork/lnd/sqldb/sqlc"
 )
 
-var (
-	errC15xUnique = errors.New("c15x fake sql: UNIQUE constraint failed")
-	errC15xFK     = errors.New("c15x fake sql: FOREIGN KEY constraint failed")
-	errC15xUnused = errors.New("c15x fake sql: query not part of the unit")
+// c15xErr: errors of the fake. Constants of a string type, not package-level
+// variables: the engine runs package initialisers lazily and best-effort and
+// was seen to leave harness globals nil (see NOTES.md).
+type c15xErr string
+
+func (e c15xErr) Error() string { return string(e) }
+
+const (
+	errC15xUnique = c15xErr("c15x fake sql: UNIQUE constraint failed")
+	errC15xFK     = c15xErr("c15x fake sql: FOREIGN KEY constraint failed")
+	errC15xUnused = c15xErr("c15x fake sql: query not part of the unit")
 )
 
 type c15xResult int64
